@@ -74,7 +74,12 @@ import Vata.Properties.Dispatch
   proves by evaluation which option words are implemented, that every other word throws, and that each case passes the
   operands / relation its option word announces.  The correspondence "callee `explUp` ↦ `checkInclUp`, `explDownNonrec` ↦
   `checkInclDownNonrec` / `inclDownNonrecSim`, `downRec` ↦ `checkInclDownRec` / `inclDownOpt` / `inclDownSim`" is the
-  reading of the table, not a theorem.
+  reading of the table, not a theorem.  `C01Sel` (end of the file) lists the eight selections with their models and option
+  words; `C01_every_selection_exact_total` is the first sentence of the property as one theorem.
+* **Around the algorithms.**  The reference deciders are total above an explicit bound (`Vata/Properties/RefTotal.lean`);
+  the utility classes the algorithms are built from – macro-state cache and memo tables, `OrdVector`, the antichain
+  containers – and the command-line option handling that produces the option word have models and theorems of their own
+  (`Vata/Properties/Util_Cache.lean`, `CacheWiring.lean`, `Util_OrdVector.lean`, `Util_Antichain.lean`, `Util_CliArgs.lean`).
 -/
 namespace Vata.Props
 open Vata Vata.InclUp
@@ -643,7 +648,179 @@ example : (⟨"ANTICHAINS_DOWN_REC_OPT_SIM", 30, "downRec", "OptDownwardInclusio
 example : Dispatch.simConsistent ⟨"X", 16, "explUp", "-", "-", "true", "given"⟩ = false ∧
     Dispatch.treeConsistent ⟨"X", 2, "explUp", "-", "-", "true", "identity"⟩ = false := by decide
 
+/-! ### the shape of the verdicts of the other three downward verdict functions -/
+
+/-- what a verdict of the non-recursive model and of the two `Sim` models carries (the analogue of
+`C01_downward_verdict_certified`, which is about `inclDownRec`; `inclDownOpt` is `inclDownRec`): `true` comes with a set
+of pairs that passed the certificate check – the downward certificate covering the final states for `inclDownNonrec`, the
+certificate modulo the preorder `ordOf R A B` of a VALIDATED relation (a downward simulation of the disjoint union of
+disjoint operands) for `inclDownSim` / `inclDownNonrecSim` –, `false` with a tree accepted by `A` and rejected by `B` -/
+theorem C01_downward_verdicts_certified (A B : TA) (R : Rel) (fuel : Nat) (b : Bool) (c : Cert) :
+    (inclDownNonrec A B fuel = some (b, c) →
+      match c with
+      | .closed X => b = true ∧ DownCert A B X ∧ ∀ f, f ∈ A.final → Sub X f B.final
+      | .witness w => b = false ∧ accepts A w = true ∧ accepts B w = false) ∧
+    ((inclDownSim A B R fuel = some (b, c) ∨ inclDownNonrecSim A B R fuel = some (b, c)) →
+      isDownSimB (unionDisjoint A B) R = true ∧ InclDown.disjointB A B = true ∧
+      match c with
+      | .closed X => b = true ∧ downCertRB (InclDown.ordOf R A B) A B X = true
+      | .witness w => b = false ∧ accepts A w = true ∧ accepts B w = false) := by
+  refine ⟨fun h => ?_, fun h => ?_⟩
+  · have := InclDown.finish_cert h
+    cases c with
+    | closed X => exact ⟨this.1, downCertB_sound this.2⟩
+    | witness w => exact this
+  · rcases h with h | h
+    · obtain ⟨h1, h2, h3⟩ := InclDown.sim_cond h
+      have := InclDown.finish_cert h3
+      cases c <;> exact ⟨h1, h2, this⟩
+    · obtain ⟨h1, h2, h3⟩ := InclDown.sim_cond h
+      have := InclDown.finish_cert h3
+      cases c <;> exact ⟨h1, h2, this⟩
+
+example : inclDownNonrec InclDownEx.exS1 InclDownEx.exS2 10 = some (true, .closed [(1, [3, 4]), (5, [6]), (2, [9])]) ∧
+    inclDownNonrecSim InclDownEx.exS1 InclDownEx.exS2 [(5, 6)] 10 = some (true, .closed [(1, [3, 4]), (2, [9])]) :=
+  ⟨rfl, rfl⟩
+
+/-! ### ONE theorem for "every implemented parameter selection"
+
+The eight selections of the statement as a type, each with the model that stands for it when the operands are prepared as
+the code prepares them (`sanitize`: useless states removed, both operands renumbered with one shared counter) and – for
+the selections with the simulation bit – the relation is the one "computed on the disjoint union of the prepared
+operands" (`upSimRef` resp. `downSimRef` of `unionDisjoint A' B'`; that `ComputeSimulation` as coded returns these is
+C04, `C04_pipeline_upward` / `C04_pipeline_downward`).  `C01Sel.word` is the option word of the selection; the eight words
+are exactly the `case` labels of the regenerated dispatcher (`C01_selections_are_the_dispatch_cases`). -/
+
+/-- the eight implemented selections: direction / recursion / implication cache / simulation -/
+inductive C01Sel where
+  | upNoSim | upSim | downNonrecNoSim | downNonrecSim | downRecNoSim | downRecSim | downRecOptNoSim | downRecOptSim
+  deriving DecidableEq, Repr
+
+/-- all of them -/
+def C01Sel.all : List C01Sel :=
+  [.upNoSim, .upSim, .downNonrecNoSim, .downNonrecSim, .downRecNoSim, .downRecSim, .downRecOptNoSim, .downRecOptSim]
+
+/-- the option word (`InclParam::GetOptions()`) of a selection -/
+def C01Sel.word : C01Sel → Nat
+  | .upNoSim => 0 | .upSim => 16 | .downNonrecNoSim => 2 | .downNonrecSim => 18
+  | .downRecNoSim => 10 | .downRecSim => 26 | .downRecOptNoSim => 14 | .downRecOptSim => 30
+
+/-- the model of a selection on the prepared operands (with the computed relation where the selection uses one).  The
+two `Opt` selections run the model of the plain functor (`inclDownOpt` is `inclDownRec` by definition; with a relation the
+`Opt` functor is modelled by `inclDownSim`, see the header of `Vata/InclDown.lean`) -/
+def C01Sel.model (s : C01Sel) (A B : TA) (fuel : Nat) : Option (Bool × Cert) :=
+  let A' := (sanitize A B).1
+  let B' := (sanitize A B).2.1
+  match s with
+  | .upNoSim => checkInclUpSan A B fuel
+  | .upSim => checkInclUpSim A B fuel
+  | .downNonrecNoSim => inclDownNonrec A' B' fuel
+  | .downNonrecSim => inclDownNonrecSim A' B' (downSimRef (unionDisjoint A' B')) fuel
+  | .downRecNoSim => inclDownRec A' B' fuel
+  | .downRecSim => inclDownSim A' B' (downSimRef (unionDisjoint A' B')) fuel
+  | .downRecOptNoSim => inclDownOpt A' B' fuel
+  | .downRecOptSim => inclDownSim A' B' (downSimRef (unionDisjoint A' B')) fuel
+
+/-- the explicit fuel bound above which the model of a selection answers: `2·|Δ_A'|·2^|Δ_B'|` (upward, one unit per
+processed pair) resp. `|Q_A'|·2^|Q_B'|` (downward, nesting depth of the calls) of the prepared operands -/
+def C01Sel.bound (s : C01Sel) (A B : TA) : Nat :=
+  match s with
+  | .upNoSim | .upSim => fuelBound (sanitize A B).1 (sanitize A B).2.1
+  | _ => InclDown.fuelBoundD (sanitize A B).1 (sanitize A B).2.1
+
+/-- **every selection has a model that is exact and total** – the first sentence of the property as one theorem: for
+each of the eight selections, every verdict of its model is the truth of `L(A) ⊆ L(B)` for the ORIGINAL operands, and for
+every fuel above the explicit bound the model returns that verdict.  No hypothesis on `A`, `B` -/
+theorem C01_every_selection_exact_total (s : C01Sel) (A B : TA) :
+    (∀ fuel b c, s.model A B fuel = some (b, c) → (b = true ↔ Incl A B)) ∧
+    (∀ fuel, s.bound A B < fuel →
+      (Incl A B → ∃ c, s.model A B fuel = some (true, c)) ∧ (¬ Incl A B → ∃ c, s.model A B fuel = some (false, c))) := by
+  have hd := C01_downward_prepared_exact A B _ _ _ rfl rfl rfl
+  cases s with
+  | upNoSim => exact C01_upward_sanitised_exact A B
+  | upSim => exact C01_upward_sim_prepared_exact A B
+  | downNonrecNoSim =>
+    exact ⟨fun f b c h => hd.1 f b c (Or.inr (Or.inl h)),
+      fun f hf => ⟨fun hi => ((hd.2 f hf).1 hi).2.1, fun hn => ((hd.2 f hf).2 hn).2.1⟩⟩
+  | downNonrecSim =>
+    exact ⟨fun f b c h => hd.1 f b c (Or.inr (Or.inr (Or.inr h))),
+      fun f hf => ⟨fun hi => ((hd.2 f hf).1 hi).2.2.2, fun hn => ((hd.2 f hf).2 hn).2.2.2⟩⟩
+  | downRecNoSim =>
+    exact ⟨fun f b c h => hd.1 f b c (Or.inl h),
+      fun f hf => ⟨fun hi => ((hd.2 f hf).1 hi).1, fun hn => ((hd.2 f hf).2 hn).1⟩⟩
+  | downRecSim =>
+    exact ⟨fun f b c h => hd.1 f b c (Or.inr (Or.inr (Or.inl h))),
+      fun f hf => ⟨fun hi => ((hd.2 f hf).1 hi).2.2.1, fun hn => ((hd.2 f hf).2 hn).2.2.1⟩⟩
+  | downRecOptNoSim =>
+    exact ⟨fun f b c h => hd.1 f b c (Or.inl h),
+      fun f hf => ⟨fun hi => ((hd.2 f hf).1 hi).1, fun hn => ((hd.2 f hf).2 hn).1⟩⟩
+  | downRecOptSim =>
+    exact ⟨fun f b c h => hd.1 f b c (Or.inr (Or.inr (Or.inl h))),
+      fun f hf => ⟨fun hi => ((hd.2 f hf).1 hi).2.2.1, fun hn => ((hd.2 f hf).2 hn).2.2.1⟩⟩
+
+-- all eight models answer on the overlapping, untrimmed pair of `SanEx` – `true` one way, `false` the other
+example : ∀ s : C01Sel, (∃ c, s.model SanEx.exA SanEx.exB 20 = some (true, c)) ∧
+    (∃ c, s.model SanEx.exB SanEx.exA 20 = some (false, c)) := by
+  intro s; cases s <;> exact ⟨⟨_, rfl⟩, ⟨_, rfl⟩⟩
+example : ∀ s : C01Sel, s.bound SanEx.exA SanEx.exB < 33 := by intro s; cases s <;> decide
+
+/-- **"and therefore all selections return the same verdict on the same pair"**: any verdict of the model of any
+selection equals any verdict of the model of any other selection and any verdict of the reference, whatever the fuels -/
+theorem C01_every_selection_same_verdict (s s' : C01Sel) (A B : TA) (f f' f₀ : Nat) (b b' b₀ : Bool) (c c' : Cert)
+    (h : s.model A B f = some (b, c)) (h' : s'.model A B f' = some (b', c')) (h₀ : inclM A B f₀ = some b₀) :
+    b = b' ∧ b = b₀ := by
+  have e := (C01_every_selection_exact_total s A B).1 f b c h
+  have e' := (C01_every_selection_exact_total s' A B).1 f' b' c' h'
+  have e₀ := inclM_iff A B f₀ b₀ h₀
+  constructor
+  · cases b <;> cases b' <;> simp_all
+  · cases b <;> cases b₀ <;> simp_all
+
+example : (C01Sel.upSim.model SanEx.exA SanEx.exB 20).map (·.1) = some true ∧
+    (C01Sel.downNonrecSim.model SanEx.exA SanEx.exB 20).map (·.1) = some true ∧ inclM SanEx.exA SanEx.exB 20 = some true :=
+  ⟨rfl, rfl, by decide⟩
+
+/-- the eight selections are exactly the implemented cases: their option words are the `case` labels of the regenerated
+`switch` (no other word has a case, every other word throws – `C01_dispatch`), pairwise different, and each is the word its
+name says (direction / recursion / cache / simulation bits) -/
+theorem C01_selections_are_the_dispatch_cases :
+    Dispatch.sameWords (Dispatch.words Gen.explDispatch) (C01Sel.all.map C01Sel.word) = true ∧
+    (C01Sel.all.map C01Sel.word).Nodup ∧ (∀ s : C01Sel, s ∈ C01Sel.all) ∧
+    (∀ s : C01Sel, Dispatch.has s.word Dispatch.fDir = decide (s ≠ .upNoSim ∧ s ≠ .upSim) ∧
+      Dispatch.has s.word Dispatch.fSim = decide (s = .upSim ∨ s = .downNonrecSim ∨ s = .downRecSim ∨ s = .downRecOptSim) ∧
+      Dispatch.has s.word Dispatch.fRec =
+        decide (s = .downRecNoSim ∨ s = .downRecSim ∨ s = .downRecOptNoSim ∨ s = .downRecOptSim) ∧
+      Dispatch.has s.word Dispatch.fCache = decide (s = .downRecOptNoSim ∨ s = .downRecOptSim)) :=
+  ⟨Dispatch.implemented_expl, by decide, fun s => by cases s <;> decide, fun s => by cases s <;> decide⟩
+
+example : C01Sel.all.map C01Sel.word = [0, 16, 2, 18, 10, 26, 14, 30] := rfl
+
 /-!
+## closed since the last refresh of this file
+
+* "No totality theorem for the reference deciders `inclM` / `inclRef`": `C01_reference_total`,
+  `C01_reference_total_decides` (`Vata/Properties/RefTotal.lean`; bound `fuelBoundM [A, B] ≤ 2^(|Q_A|+|Q_B|)`, and
+  `driver_two_operand_verdicts`: the driver's fuel suffices for operands of at most 9 states each).
+* "the analogous shape statement for the other three verdict functions … is not spelled out":
+  `C01_downward_verdicts_certified`.
+* "The address-keyed caches … are replaced by value comparison" – the classes behind that replacement now have models of
+  their own, checked against the real classes by histories: `Util::Cache` + `CachedBinaryOp` (`Vata/CacheModel.lean`;
+  `Util_Cache_interning`: two handles are pointer-equal iff the interned sets are equal; `Util_Cache_memo_sound`: a memoised
+  `lte` answers the function value whatever was memoised before and whichever addresses were reused, PROVIDED the deleter
+  purges both key positions – which is what the deleter lambdas of the three sites denote now,
+  `Vata.CacheWiring.cache_wiring_is_lib`, re-checked on every run), the macro-state container `OrdVector`
+  (`Util_OrdVector_history`, `Util_OrdVector_eq`: `==` is equality of the denoted sets), the antichain containers
+  (`Util_Antichain_offer_history`, `Util_Antichain_any_history_2C`) and the bottom-up index of the upward algorithm
+  (`Util_Cache_bu_index`).  What is still open about them is the last item below.
+* "That the relation the C++ `ComputeSimulation` returns … is C04": C04 now has the route as coded end to end
+  (`C04_pipeline_downward`, `C04_pipeline_upward` in `Vata/Properties/C04_Pipeline.lean`).
+* The first sentence of the property as ONE statement over the eight selections: `C01_every_selection_exact_total`,
+  `C01_every_selection_same_verdict`, `C01_selections_are_the_dispatch_cases`.
+* How a user of the binary reaches the option words: `Vata/Properties/Util_CliArgs.lean` (`Util_CliArgs_incl_word_spec`:
+  the word is the flag-wise reading of the `-o` options; `Util_CliArgs_every_selection_reachable_partial`: every case of the
+  explicit dispatcher is reachable by some option string; `Util_CliArgs_unimplemented`: every other accepted combination
+  reaches `default`, which throws).
+
 ## not yet proved
 
 * **Upward with a simulation outside its preconditions.**  Every verdict of `inclUpSim` is exact unconditionally
@@ -653,9 +830,10 @@ example : Dispatch.simConsistent ⟨"X", 16, "explUp", "-", "-", "true", "given"
   through unchecked (`C01_dispatch`, item 4) – on operands that share a state number the pruned exploration can end with
   `return true` although the inclusion is false (`InclUpSimEx`, the pair `exDeep`/`exA`); the model then refuses.  On the
   prepared operands with the computed relation all preconditions hold (`C01_upward_sim_prepared_exact`).  That the
-  relation the C++ `ComputeSimulation` returns for `TA_UPWARD` is `upSimRef` of the union is C04.  Hash-container
-  iteration orders are replaced by list order: which of several simulation-equivalent states represents them in a
-  minimised macro-state may differ from the C++ run (the verdict does not depend on it).
+  relation the C++ `ComputeSimulation` returns for `TA_UPWARD` is `upSimRef` of the union is C04 (`C04_pipeline_upward`: the
+  route as coded returns `upSimRef` on an automaton without useless states – which the union of the prepared operands is).
+  Hash-container iteration orders are replaced by list order: which of several simulation-equivalent states represents
+  them in a minimised macro-state may differ from the C++ run (the verdict does not depend on it).
 * **"With or without the implication cache"**: the model of the `Opt` functor is the model of the plain functor by
   definition (`C01_downward_cache_same_computation`, first component is `rfl`).  That `OptDownwardInclusionFunctor`
   never fills its cache `incl_` is an argument about the C++ source (header of `Vata/InclDown.lean`), not a theorem.
@@ -665,15 +843,25 @@ example : Dispatch.simConsistent ⟨"X", 16, "explUp", "-", "-", "true", "given"
   productive and – for the non-recursive variant – the relation is transitive.  The C++ passes the caller's relation and
   the caller's operands through unchecked (`C01_dispatch`, item 4); on the prepared operands with the computed relation
   all preconditions hold (`C01_downward_prepared_exact`).  That the relation the C++ `ComputeSimulation` returns is
-  `downSimRef` of the union is C04.
-* **Link between the dispatch table and the models.**  `C01_dispatch` is about the table regenerated from the sources;
-  which Lean model stands for which callee of the table is the reading given in the header, not a theorem.
+  `downSimRef` of the union is C04 (`C04_pipeline_downward`, for the route as coded with the model of the engine).
+* **Link between the dispatch table and the models.**  `C01_dispatch` / `C01_selections_are_the_dispatch_cases` are about
+  the table regenerated from the sources; which Lean model stands for which callee of the table (`C01Sel.model`) is the
+  reading given in the header, not a theorem.  The same holds at the other end: `Util_CliArgs_*` is about a model of
+  `cli/parse_args.cc` / `cli/operations.hh`; with `sim=yes` the command line calls `ComputeSimulation` before the dispatcher
+  (`perform`, `Util_CliArgs_perform_examples`), the library entry point takes whatever relation the caller passes.
 * The non-recursive algorithm's **call emulator** (explicit stack of frames, `EXPAND_CALL` / `EXPAND_RETURN` macros) is
-  modelled by recursion (`InclDown.expandN`); the address-keyed caches and hash-container iteration orders are replaced by
-  value comparison and list order.  `C01_downward_verdict_certified` is stated for `inclDownRec`; the analogous shape
-  statement for the other three verdict functions follows from the same `finish` but is not spelled out.
-* The reference deciders `inclM`/`inclRef` are total above the explicit bound `fuelBoundM [A, B]`
-  (`C01_reference_total` in `Vata/Properties/RefTotal.lean`); no lower bound on the fuel they need is proved.  The fuel
-  bounds of the models (`fuelBound`, `fuelBoundD`) and of the references are exponential worst-case bounds, not tight.
+  modelled by recursion (`InclDown.expandN`); hash-container iteration orders are replaced by list order.
+* **Containers and caches inside the algorithms.**  The models of the algorithms keep their macro-states, antichains and
+  work-lists in lists of values and compare by value; the real classes (`Cache`, `CachedBinaryOp`, `OrdVector`,
+  `Antichain2Cv2`, `Antichain1C`, `SequentialAntichain1C`) have separate models with history theorems (`Util_Cache_*`,
+  `Util_OrdVector_*`, `Util_Antichain_*`, see the "closed" list).  No theorem connects the two layers: "the work-list of
+  `InclUp.run` IS a history of `Antichain2Cv2` operations" is not stated, and that `lte` is only ever asked about live
+  macro-states (the hypothesis under which `Util_Cache_memo_sound` speaks) is the call discipline of the algorithms, read
+  off the sources.  Destruction order of cache and antichains (`tree_incl_down.hh`) is outside the cache model.
+  For the upward algorithm WITHOUT simulation the two layers are now connected: `C01_upward_caches_transparent`
+  (`Vata/Properties/C01_Caches.lean`: the algorithm with `biggerTypeCache`, `lteCache`, `evalTransitionsCache` over a heap with
+  dying objects and an arbitrary allocator equals `inclUp`); the other selections remain open in this sense.
+* No lower bound on the fuel the reference deciders need is proved.  The fuel bounds of the models (`fuelBound`,
+  `fuelBoundD`) and of the references (`fuelBoundM`) are exponential worst-case bounds, not tight.
 -/
 end Vata.Props
